@@ -878,7 +878,7 @@ func c08SystemScenario(t *testing.T, rec *vRecorder, rnd *vRand, k int) bool {
 		return true
 	}
 	waitRegistered := func() {
-		for dl := time.Now().Add(5 * time.Second); time.Now().Before(dl) && !registered(); {
+		for dl := time.Now().Add(30 * time.Second); time.Now().Before(dl) && !registered(); {
 			time.Sleep(2 * time.Millisecond)
 		}
 	}
@@ -924,7 +924,8 @@ func c08SystemScenario(t *testing.T, rec *vRecorder, rnd *vRand, k int) bool {
 			sort.Slice(m, func(i, j int) bool { return m[i] < m[j] })
 			return m
 		}
-		deadline := time.After(6 * time.Second)
+		// generous: a loaded machine must never turn into an alarm (delivery normally takes milliseconds)
+		deadline := time.After(45 * time.Second)
 	read:
 		for len(missing()) > 0 {
 			select {
